@@ -153,3 +153,28 @@ package sqlite
 //@     after call sqlcommon.AddFromUlid : resumed = true
 //@     before call (squirrel.SelectBuilder).QueryContext args _ : assert storeScoped && horizon && ordered && (options.Pagination.From != "" ==> resumed)
 //@     after call (squirrel.SelectBuilder).QueryContext : ran = true
+
+// ------------------------------------------------------------------ C16: store lookup and deletion (Go half)
+// GetStore selects exactly the store with this id that is NOT soft-deleted ("a deleted store is no longer returned by
+// GetStore"); DeleteStore marks exactly the store with this id and reports a failed statement
+//@ func (*Datastore).GetStore(s, ctx, id) (res, err)
+//@   property C16
+//@   option nosafety
+//@   option defer_neutral
+//@   ensures @queried res != nil ==> ran
+//@   monitor statement
+//@     ghost ran = false
+//@     before call (squirrel.SelectBuilder).Where args _, pred : assert typeIs(pred, "squirrel.Eq") && typeIs(as(pred, "squirrel.Eq")["id"], "string") && as(as(pred, "squirrel.Eq")["id"], "string") == id && inDom(as(pred, "squirrel.Eq"), "deleted_at") && as(pred, "squirrel.Eq")["deleted_at"] == nil
+//@     after call (squirrel.SelectBuilder).QueryRowContext : ran = true
+
+//@ func (*Datastore).DeleteStore(s, ctx, id) (err)
+//@   property C16
+//@   option nosafety
+//@   option defer_neutral
+//@   ensures @executed err == nil ==> ran && execErr == nil
+//@   monitor statement
+//@     ghost ran = false
+//@     ghost execErr error = nil
+//@     before call (squirrel.UpdateBuilder).Set args _, col, v : assert col == "deleted_at"
+//@     before call (squirrel.UpdateBuilder).Where args _, pred : assert typeIs(pred, "squirrel.Eq") && typeIs(as(pred, "squirrel.Eq")["id"], "string") && as(as(pred, "squirrel.Eq")["id"], "string") == id
+//@     after call (squirrel.UpdateBuilder).ExecContext returning r, e : ran = true ; execErr = e
